@@ -204,6 +204,29 @@ def run_case(case):
                 fail("paths", {"clause": "relative-path-does-not-resolve-to-the-target", "tree-relation": rel},
                      repr(got), refp.abs_path(b),
                      "%s.get_relative_path(%s) = %r" % (refp.abs_path(a), refp.abs_path(b), rp))
+    # 2b. hand-written relative paths: the reference's own path, with a redundant './' in front, and with a
+    #     detour through every child Section of the start ('child/../...'); all must reach the target
+    if case["layer"] == "small":
+        for a in pair_secs:
+            kids = tree.children(a)[0]
+            for b in pair_secs:
+                rel = relation(a, b)
+                base = refp.rel_path(a, b)
+                forms = [("reference-form", base), ("dot-prefixed", "./" + base)]
+                forms += [("detour-through-child", "%s/../%s" % (k.name, base)) for k in kids
+                          if not base.startswith("/")]
+                for form, path in forms:
+                    if refp.resolve(a, path) is not b:
+                        continue              # the reference itself does not read this form as a way to b
+                    execs += 1
+                    try:
+                        got = a.get_section_by_path(path)
+                    except Exception as exc:
+                        got = "<%s>" % type(exc).__name__
+                    if got is not b:
+                        fail("paths", {"clause": "hand-written-relative-path-does-not-resolve-to-the-target",
+                                       "tree-relation": rel, "form": form}, repr(got), refp.abs_path(b),
+                             "%s.get_section_by_path(%r)" % (refp.abs_path(a), path))
     # 3. traversals
     dmax = depth_of(doc) + 1
     depths = [None] + list(range(0, dmax + 1)) if case["layer"] == "small" else [None, 0, 1, 2, dmax]
